@@ -27,6 +27,11 @@ nx = lambda a, b, l: l.startswith('exc:')
 
 def check(run):
     R = run
+    R.rule('C19.shared', 'objects created once per class / per function definition (class-level attributes, parameter '
+           'defaults) are only read: no buffer, validator, poll object, header list or option dict is shared between '
+           'connections', 1)
+    from .common import shared_state
+    shared_state(R, 'C19.shared')
     R.rule('C19.choice', "proxy entry looked up under 'https' for wss and 'http' for ws; a falsy entry takes the direct "
                          'arm; the proxied arm reports the proxy URL to Connected', 5)
     R.rule('C19.connect', 'connect to the proxy URL host/port (443/80 by proxy scheme, TLS by proxy scheme); CONNECT built '
